@@ -16,10 +16,13 @@ EXPLANATION = (
     "signals under WaitList.state; (C18.3) LRU: every keys.insert is paired with size +=, every keys.remove with size -=, the "
     "overwrite arm with both; keys.remove precedes Node::drop; raw-pointer dereferences happen only in functions that hold or "
     "receive the state guard; insert evicts in a loop on size > capacity, insert_no_evict never reaches remove_lru; (C18.4) "
-    "the lock-order graph of sync42 is acyclic apart from the doing_work-gated state/core pair (C20.1).  ORDER/MUSTPASS/HELD/"
-    "WRITES/ORIGIN over resolved MIR.")
-NOT_DECIDED = ("exactly-once / ordering / no lost wake-up under all interleavings; LRU equivalence to a sequential model over all "
-               "operation sequences")
+    "the lock-order graph of sync42 is acyclic apart from the doing_work-gated state/core pair (C20.1); (C18.5) wait "
+    "discipline: condvar waits are classified as plain (return after any wake-up) or filtering (re-wait until a private "
+    "predicate changes, e.g. wait_for_store on Waiter.seq_no); a filtering wait may be used only where every writer of its "
+    "predicate in the function holds the mutex the waiter sleeps with, a plain wait only inside a loop that re-reads the "
+    "shared state.  ORDER/MUSTPASS/HELD/WRITES/ORIGIN over resolved MIR.")
+NOT_DECIDED = ("exactly-once / ordering / absence of every lost wake-up under all interleavings (C18.5 is a necessary condition); LRU "
+               "equivalence to a sequential model over all operation sequences")
 ASSUMPTIONS = ["std Mutex/Condvar semantics"]
 
 Q = "sync42::work_coalescing_queue::WorkCoalescingQueue::"
